@@ -43,10 +43,18 @@ pub fn panic_msg(p: Box<dyn std::any::Any + Send>) -> String {
     s.replace('\n', " ")
 }
 
-/// case: <max_cycles> | <stack top-first> | <advice stack top-first> | <program>
+/// first field of a case: `<max_cycles>` or `<max_cycles>,<expected_cycles>`
+pub fn parse_limits(f: &str) -> (u32, u32) {
+    let mut it = f.trim().split(',');
+    let m: u32 = it.next().unwrap().trim().parse().unwrap();
+    let e: u32 = it.next().map(|x| x.trim().parse().unwrap()).unwrap_or(64);
+    (m, e)
+}
+
+/// case: <max_cycles>[,<expected_cycles>] | <stack top-first> | <advice stack top-first> | <program>
 pub fn run_case(line: &str) -> String {
     let parts: Vec<&str> = line.split('|').collect();
-    let max_cycles: u32 = parts[0].trim().parse().unwrap();
+    let (max_cycles, expected) = parse_limits(parts[0]);
     let mut pt = Toks::new(parts[3]);
     let pp = parse_program(&mut pt);
     let mut stack: Vec<u64> = parts[1].split_whitespace().map(|t| parse_val(t, &pp.hashes)).collect();
@@ -56,7 +64,7 @@ pub fn run_case(line: &str) -> String {
         let stack_inputs = StackInputs::try_from_values(stack).unwrap();
         let advice_inputs = AdviceInputs::default().with_stack_values(adv).unwrap();
         let host = DefaultHost::new(MemAdviceProvider::from(advice_inputs));
-        let opts = ExecutionOptions::new(Some(max_cycles), 64, false).unwrap();
+        let opts = ExecutionOptions::new(Some(max_cycles), expected, false).unwrap();
         let mut process = Process::new(pp.program.kernel().clone(), stack_inputs, host, opts);
         let r = process.execute(&pp.program);
         let clk = process.system.clk();
